@@ -355,7 +355,7 @@ def handle_driver(c):
     cases = [[(n, np.atleast_1d(np.array(val, dtype=float)).ravel()) for n, val in cs]
              for cs in gen2(p.driver._designvars, p.model)]
     ok, msg, sig = True, '', ''
-    if seen_again != seen:
+    if g != 'list' and seen_again != seen:      # (a list case may leave variables at what the previous case set)
         ok, sig = False, 'not-reproducible:driver:' + g
         msg = 'DOEDriver run twice: the second run evaluated the model at different points (%r ... vs %r ...)' % (
             seen[:1], seen_again[:1])
